@@ -129,6 +129,7 @@ func (core *JApiCore) processBody(lexeme scanner.Lexeme) {
 
 func (core *JApiCore) processContextBegin() {
 	core.currentDirective.HasExplicitContext = true
+	core.explicitContextFiles[core.currentDirective] = core.scanner.File()
 }
 
 func (core *JApiCore) closeLastExplicitContext() *jerr.JApiError {
@@ -155,6 +156,19 @@ func (core *JApiCore) HasUnclosedExplicitContext() bool {
 	return false
 }
 
+// hasUnclosedExplicitContextOfCurrentFile tells whether a parenthesis opened in
+// the file which is scanned now is still open. Parentheses opened by the
+// including files are theirs to close.
+func (core *JApiCore) hasUnclosedExplicitContextOfCurrentFile() bool {
+	f := core.scanner.File()
+	for d := core.currentContextDirective; d != nil; d = d.Parent {
+		if d.HasExplicitContext && core.explicitContextFiles[d] == f {
+			return true
+		}
+	}
+	return false
+}
+
 func (core *JApiCore) processContextEnd() *jerr.JApiError {
 	if je := core.processCurrentDirective(); je != nil {
 		return je
@@ -167,7 +181,7 @@ func (core *JApiCore) processEOF() *jerr.JApiError {
 	if je := core.processCurrentDirective(); je != nil {
 		return je
 	}
-	if core.HasUnclosedExplicitContext() {
+	if core.hasUnclosedExplicitContextOfCurrentFile() {
 		return core.japiError("not all explicit contexts are closed", core.scanner.CurrentIndex()-1)
 	}
 	return nil
